@@ -82,6 +82,70 @@ def run(chk):
     chk.ob(R2, "x86|folded-set", names == sorted(oracle["x86_cdecl_family_64"]), loc="asmjit/x86/x86func.cpp:%d" % fam.line,
            detail="folded conventions %s, expected %s" % (names, sorted(oracle["x86_cdecl_family_64"])))
 
+    # ---------------------------------------------------------------- C06.c stack arguments are naturally aligned (AArch64)
+    R3 = "R-STACK-ARG-ALIGN"
+    chk.rule(R3, "a64 init_func_detail: every `stack_offset = align_up(stack_offset, K)` of a stack-passed argument is executed exactly when the "
+                 "argument's size is at least K (AAPCS64 / Apple arm64: an argument is aligned to its natural alignment): the guarding test "
+                 "holds for size == K and fails for size == K - 1")
+    from lib.must import branch_atoms
+    fa64 = chk.facts("asmjit/arm/a64func.cpp", funcs=r"asmjit::a64::FuncInternal::init_func_detail$")
+    ifd = cfg.find_fn(fa64, "init_func_detail")
+    atoms = branch_atoms(ifd)
+    nal = 0
+    pos = ifd.block_of()
+    for i, x in sorted(ifd.calls(lambda x: x.get("cn") == "align_up" and len(x.get("args", [])) == 2)):
+        if "stack_offset" not in ifd.text(x["args"][0]):
+            continue
+        par = ifd.parent_map().get(i)
+        px = ifd.e(par) if par is not None else None
+        while px and px["k"] in ("cast", "paren"):
+            par = ifd.parent_map().get(par)
+            px = ifd.e(par) if par is not None else None
+        if not (px and px["k"] == "binop" and px["op"] == "=" and "stack_offset" in ifd.text(px["lhs"]) and "." not in ifd.text(px["lhs"]) and "->" not in ifd.text(px["lhs"])):
+            continue            # the total size of the argument area, not an argument's offset
+        kx = ifd.e(ifd.strip(x["args"][1]))
+        if kx is None or not isinstance(kx.get("cv"), int) or i not in pos:
+            continue
+        K = kx["cv"]
+        b = pos[i][0]
+        preds = ifd.preds.get(b, [])
+        ok, why = False, "the alignment is not guarded by a single size test"
+        if len(preds) == 1 and preds[0] in atoms:
+            atom, pol = atoms[preds[0]]
+            ax = ifd.e(atom)
+            taken_when = (ifd.blocks[preds[0]]["succs"].index(b) == 0) == pol     # value of the atom on the edge into b
+            if ax and ax["k"] == "binop" and ax["op"] in (">=", ">", "<", "<="):
+                rx = ifd.e(ifd.strip(ax["rhs"]))
+                if rx is not None and isinstance(rx.get("cv"), int):
+                    c = rx["cv"]
+
+                    def holds(v, op=ax["op"], c=c):
+                        return {">=": v >= c, ">": v > c, "<": v < c, "<=": v <= c}[op]
+                    ok = (holds(K) == taken_when) and (holds(K - 1) != taken_when)
+                    why = "`%s` aligns %s" % (" ".join(ifd.text(atom).split()), "sizes above %d only" % K if not ok else "")
+        nal += 1
+        chk.ob(R3, "a64|align_up(stack_offset, %d)#%d" % (K, nal), ok, loc=ifd.loc(i),
+               detail="stack arguments of exactly %d bytes must be aligned to %d: %s" % (K, K, why), key="stackalign|a64|%d#%d" % (K, nal))
+    chk.floor(R3 + ":sites", nal, 2)
+
+    # ---------------------------------------------------------------- C06.d argument moves: which conversions sign-extend
+    R4 = "R-SIGN-EXTEND-PAIRS"
+    chk.rule(R4, "x86 emit_arg_move: the (destination, source) type pairs that select movsx/movsxd are exactly the pairs of signed integer "
+                 "types with a narrower source: (Int16,Int8) (Int32,Int8) (Int64,Int8) (Int32,Int16) (Int64,Int16) (Int64,Int32)")
+    fx86 = chk.facts("asmjit/x86/x86emithelper.cpp", funcs=r"asmjit::x86::EmitHelper::emit_arg_move$")
+    eam = cfg.find_fn(fx86, "emit_arg_move")
+    order = ["kInt8", "kInt16", "kInt32", "kInt64"]
+    want = {(order[d], order[s_]) for d in range(4) for s_ in range(d)}
+    # pairs compared with `cast_op` in a condition that dominates the movsx assignment
+    pairs = set()
+    for i, x in eam.calls(lambda x: x.get("cn") == "make_cast_op" and len(x.get("args", [])) == 2):
+        a0, a1 = eam.e(eam.strip(x["args"][0])), eam.e(eam.strip(x["args"][1]))
+        if a0 is not None and a1 is not None and a0.get("cvn") and a1.get("cvn"):
+            pairs.add((a0["cvn"], a1["cvn"]))
+    chk.need(len(pairs) >= 4, "emit_arg_move: constant make_cast_op pairs not found")
+    chk.ob(R4, "x86|movsx-pairs", pairs == want, loc="asmjit/x86/x86emithelper.cpp:%d" % eam.line,
+           detail="pairs selecting sign extension: unexpected %s, missing %s" % (sorted(pairs - want), sorted(want - pairs)), key="signext|x86")
+
     return chk.finish(
         level="other",
         explanation=("Convention-table clause only: the records built by x86/a64 init_call_conv (extracted from the AST per architecture "
